@@ -490,6 +490,19 @@ func c20(tier string, args []string) int {
 		books = append(books, allGames(2)[:30])
 	}
 	var cases, distinct int64
+	// another book with its own intact cache, for the two-books-in-one-process case
+	otherGames := []bookGame{{"d2d4", "g8f6", "c2c4"}, {"c2c4", "e7e5"}}
+	otherRef := buildRef(otherGames)
+	otherDir, otherFile := writeBookFile(renderSimple(otherGames))
+	defer os.RemoveAll(otherDir)
+	if x := sched.Run(nil, func() {
+		if err := openingbook.NewBook().Initialize(otherDir, otherFile, openingbook.Simple, true, false); err != nil {
+			panic(err.Error())
+		}
+	}, sched.Options{}); x.Verdict != "" {
+		run.Violate("cache-build:"+x.Verdict, x.Detail, map[string]interface{}{"kind": "cache", "games": otherGames})
+		return run.FinishWorker()
+	}
 	for bi, games := range books {
 		ref := buildRef(games)
 		content := renderSimple(games)
@@ -529,14 +542,25 @@ func c20(tier string, args []string) int {
 			} else {
 				ioutil.WriteFile(cachePath, data, 0644)
 			}
-			var b1, b2 *openingbook.Book
-			var e1, e2 error
+			var b1, b2, b3, b4, b5 *openingbook.Book
+			var e1, e2, e3, e4, e5 error
 			x := sched.Run(nil, func() {
 				b1 = openingbook.NewBook()
 				e1 = b1.Initialize(dir, file, openingbook.Simple, true, false)
 				sched.Record("first", "done")
 				b2 = openingbook.NewBook()
 				e2 = b2.Initialize(dir, file, openingbook.Simple, true, false)
+				// repeated initialisations in one process: the first object again after Reset(), another book (its own
+				// intact cache) on a reset object, and this book once more on a reset object
+				b3 = b1
+				b3.Reset()
+				e3 = b3.Initialize(dir, file, openingbook.Simple, true, false)
+				b4 = openingbook.NewBook()
+				b4.Reset()
+				e4 = b4.Initialize(otherDir, otherFile, openingbook.Simple, true, false)
+				b5 = openingbook.NewBook()
+				b5.Reset()
+				e5 = b5.Initialize(dir, file, openingbook.Simple, true, false)
 			}, sched.Options{})
 			r := map[string]interface{}{"kind": "cache", "games": games, "damage": name, "cache_bytes": len(good)}
 			switch x.Verdict {
@@ -554,17 +578,25 @@ func c20(tier string, args []string) int {
 				fmt.Fprintln(os.Stderr, "infrastructure error:", x.Detail)
 				os.Exit(2)
 			}
-			if e1 != nil || e2 != nil {
-				run.Violate("damaged-cache:error", fmt.Sprintf("Initialize returned an error: %v / %v", e1, e2), r)
+			if e1 != nil || e2 != nil || e3 != nil || e4 != nil || e5 != nil {
+				run.Violate("damaged-cache:error", fmt.Sprintf("Initialize returned an error: %v / %v / %v / %v / %v", e1, e2, e3, e4, e5), r)
 				return
 			}
-			for i, b := range []*openingbook.Book{b1, b2} {
-				if cls, what := checkBook(b, ref); cls != "" {
+			// (b1 and b3 are the same object: it is judged after its re-initialisation)
+			for i, b := range []*openingbook.Book{b2, b3, b4, b5} {
+				want, names := ref, []string{"second fresh Book", "first Book after Reset and re-initialisation", "another book on a reset Book in the same process", "this book on a reset Book after the other one"}
+				if i == 2 {
+					want = otherRef
+				}
+				if cls, what := checkBook(b, want); cls != "" {
 					k := "damaged-cache:wrong-book:" + cls
 					if intact {
 						k = "cache-roundtrip:" + cls
 					}
-					run.Violate(k, fmt.Sprintf("book %d after Initialize: %s", i+1, what), r)
+					if i >= 1 {
+						k += ":repeated-initialisation"
+					}
+					run.Violate(k, fmt.Sprintf("%s: %s", names[i], what), r)
 					return
 				}
 			}
